@@ -41,7 +41,8 @@ PROBES = ["card skipped by sampler (all its contests finished)", "card listing n
           "two contests share threshold card", "continued call added cards", "sample numbers equal as floats",
           "second draw on the same contests with new numbers", "list sorted in place between draws",
           "size beyond the number of real CVRs (phantoms needed)", "sample sizes handed over as numpy integers",
-          "sample size above 256", "contest added in place to cards already drawn from"]
+          "sample size above 256", "contest added in place to cards already drawn from",
+          "cards carry sampling probabilities from an earlier estimate"]
 
 
 class SchedPrng:
@@ -136,6 +137,8 @@ def generate(rng, tier):
         nxt.append(cur)
     return {"contests": contests, "cards": cards, "alt": alt, "numbering": numbering, "sizes": sizes, "sizes_next": nxt,
             "size_type": rng.pick(["int", "int", "np"]),
+            # sampling probabilities left on the cards by an earlier sample-size estimate (a documented side effect of it)
+            "p_values": ([rng.pick([0, 0, 0.25, 1, None]) for _ in range(ncards)] if rng.chance(0.25) else None),
             "late_contest": ({"cid": rng.pick(cids), "cards": rng.sample(range(ncards), rng.randint(1, min(ncards, 4))),
                               "more": rng.randint(0, 3)} if rng.chance(0.3) else None),
             "pipeline": rng.chance(0.35), "return_order": rng.perm(ncards), "mvr_from_alt": rng.chance(0.5),
@@ -186,6 +189,10 @@ def execute(case):
     contests = W.mk_contests(ns, world)
     audit = W.mk_audit(ns, world)
     cvrs = W.mk_cvrs(ns, cards)
+    if case.get("p_values"):
+        for c, pv in zip(cvrs, case["p_values"]):
+            c.p = pv
+        out.probe("cards carry sampling probabilities from an earlier estimate")
     assign(ns, cvrs, case["numbering"])
     nums = [c.sample_num for c in cvrs]
     out.ev("numbers", [str(n) for n in nums])
@@ -569,6 +576,8 @@ def reducers(case):
             del c["redraw"]["numbers"][i]
         if c.get("late_contest"):
             c["late_contest"]["cards"] = [j - (j > i) for j in c["late_contest"]["cards"] if j != i]
+        if c.get("p_values"):
+            del c["p_values"][i]
         c["mvr_phantom"] = [j - (j > i) for j in c.get("mvr_phantom", []) if j != i]
         c["mvr_drop"] = {str(int(j) - (int(j) > i)): v for j, v in c.get("mvr_drop", {}).items() if int(j) != i}
         yield _clamp(c)
